@@ -317,7 +317,9 @@ func runRound(r *mon.Run, idx int) {
 		return vgirpc.Anonymous(), nil
 	})
 	if err := h.EnableTokenIntrospection(vgirpc.TokenIntrospectionConfig{
-		Resolver:   func(c string) (vgirpc.TokenIdentity, bool, error) { return vgirpc.TokenIdentity{Principal: "p-" + c}, true, nil },
+		Resolver: func(c string) (vgirpc.TokenIdentity, bool, error) {
+			return vgirpc.TokenIdentity{Principal: "p-" + c}, true, nil
+		},
 		Principals: []string{"introspector"}, RateLimitPerSecond: 1000,
 	}); err != nil {
 		r.Fatal("EnableTokenIntrospection: %v", err)
@@ -712,7 +714,7 @@ func main() {
 		_ = pprof.StartCPUProfile(f)
 		defer pprof.StopCPUProfile()
 	}
-	n := r.N(40, 400)
+	n := r.N(32, 400)
 	par := r.N(4, 8)
 	if v := os.Getenv("C40_DEV_ROUNDS"); v != "" { // development knob, not used by /verif/check
 		fmt.Sscan(v, &n)
